@@ -59,7 +59,7 @@ C12 = dict(
                "(from the C14 theorems); the type stored at the function's type id is the requested signature for every hash order of the parsed types (from the C13 dedup theorems); one build appends exactly one function "
                "item whose id is returned; the model's function/code sections are the stored payloads, so a built function is emitted with exactly the requested types, locals and body ++ [end] wherever the index space puts "
                "it, and -- agree being equality -- so is it in the observed output; finish_module succeeds iff functions.len() = num_local_functions + imports.num_funcs, every parsed module satisfies it and every API call keeps it (convert_local_fn_to_import takes one off num_local_functions since the repair of D08), so finish_module never fails after any history. Partial for the index-space "
-               "part (returned id and name refer to the function after import additions / deletions): decided per history in Coq on the decoded real output; known class D02 (D06 -- a deleted added import stayed in the index space -- and D08 -- finish_module panicked after a conversion -- are repaired).",
+               "part (returned id and name refer to the function after import additions / deletions): decided per history in Coq on the decoded real output; no known class left (D02 -- import section order vs index order --, D06 -- a deleted added import stayed in the index space -- and D08 -- finish_module panicked after a conversion -- are repaired; C12_former_D02_witness_holds, C12_former_D08_witness_holds).",
     level_note=NOTE, trusted_base=TB12,
     technique="Coq theorems over a hand-written model (reusing the C13 / C14 developments) + independent executable specification evaluated in Coq on the real decoded output + refutation witness",
     design_ref="5/C12", harness_prop="C12",
